@@ -39,8 +39,11 @@ enum End {
     DropDuringWrite,
     /// poll `commit` once and drop the future if it is Pending
     CancelCommit,
+    /// `commit` is dropped at its first Pending while a write of the same transaction is in flight
+    /// (the commit waits for the transaction slot the write holds); nothing was committed
+    CancelCommitDuringWrite,
 }
-const ENDS: [End; 6] = [End::Commit, End::Rollback, End::DropPermit, End::ErrThenDrop, End::DropDuringWrite, End::CancelCommit];
+const ENDS: [End; 7] = [End::Commit, End::Rollback, End::DropPermit, End::ErrThenDrop, End::DropDuringWrite, End::CancelCommit, End::CancelCommitDuringWrite];
 
 #[derive(Clone, Copy, Debug, PartialEq, Eq, Hash)]
 struct Script {
@@ -175,6 +178,25 @@ async fn writer(
                                 }
                             }
                             StepResult::Ok
+                        }
+                        End::CancelCommitDuringWrite => {
+                            // a statement of the same transaction that changes nothing (so the
+                            // expected rows do not depend on whether it ran): a read through tx()
+                            let probe = p2panda_core::Hash::digest(b"c10 in-flight statement");
+                            let mut write = Box::pin(<SqliteStore as p2panda_store::operations::OperationStore<p2panda_core::Operation<()>, p2panda_core::Hash>>::has_operation_tx(&store, &probe));
+                            let write_pending = matches!(futures_util::poll!(write.as_mut()), std::task::Poll::Pending);
+                            let mut fut = Box::pin(store.commit(p));
+                            let r = match futures_util::poll!(fut.as_mut()) {
+                                std::task::Poll::Ready(_) => StepResult::CommitCancelled { completed: true },
+                                std::task::Poll::Pending => {
+                                    drop(fut);
+                                    StepResult::CommitCancelled { completed: false }
+                                }
+                            };
+                            if write_pending {
+                                let _ = write.await;
+                            }
+                            r
                         }
                         End::CancelCommit => {
                             let mut fut = Box::pin(store.commit(p));
@@ -326,11 +348,11 @@ async fn execute(ch: &Chooser, k: usize, max_writes: usize, path: &str, max_conn
             }
             (Step::Finish(end), r) => {
                 match (end, r) {
-                    (End::Commit, _) | (End::CancelCommit, StepResult::CommitCancelled { completed: true }) => {
+                    (End::Commit, _) | (End::CancelCommit | End::CancelCommitDuringWrite, StepResult::CommitCancelled { completed: true }) => {
                         obs.committed.push(w);
                         obs.order.push((w, true));
                     }
-                    (End::CancelCommit, _) => {
+                    (End::CancelCommit | End::CancelCommitDuringWrite, _) => {
                         obs.in_doubt.push((w, obs.committed.len()));
                         obs.order.push((w, false));
                     }
@@ -439,7 +461,7 @@ pub fn run(mut rep: Report) -> i32 {
     // (writers, max writes per transaction, deviation bound)
     let configs: Vec<(usize, usize, usize)> = if thorough { vec![(2, 2, usize::MAX), (3, 1, 2)] } else { vec![(2, 1, 1)] };
     rep.rule = format!(
-        "k writers on one file-backed SqliteStore, configurations (k, max writes, max switches away from a runnable writer) = {configs:?}; every script (first begin cancelled at its first Pending or not) x (0..=max writes: topic association + cursor overwrite) x (end in {{commit, rollback, drop permit, failing statement then drop, permit dropped while a write of the same transaction is in flight, commit future dropped at first Pending (single-connection pool only)}}) for every writer, pools of 1 and 4 connections; every grant order of the writers' store calls within the deviation bound; oracle after settle: committed data read through a second store = exactly the committed scripts in commit order (a cancelled commit may count or not, atomically), every begin returns, no panic; non-trivial = execution with at least one aborted and one committed transaction and at least one deviation"
+        "k writers on one file-backed SqliteStore, configurations (k, max writes, max switches away from a runnable writer) = {configs:?}; every script (first begin cancelled at its first Pending or not) x (0..=max writes: topic association + cursor overwrite) x (end in {{commit, rollback, drop permit, failing statement then drop, permit dropped while a write of the same transaction is in flight, commit future dropped at first Pending, commit future dropped at first Pending while a statement of the same transaction is in flight (both on the single-connection pool only)}}) for every writer, pools of 1 and 4 connections; every grant order of the writers' store calls within the deviation bound; oracle after settle: committed data read through a second store = exactly the committed scripts in commit order (a cancelled commit may count or not, atomically), every begin returns, no panic; non-trivial = execution with at least one aborted and one committed transaction and at least one deviation"
     );
     let dir = if std::path::Path::new("/dev/shm").is_dir() { "/dev/shm".to_string() } else { std::env::temp_dir().display().to_string() };
     let pid = std::process::id();
@@ -525,6 +547,16 @@ pub fn run(mut rep: Report) -> i32 {
             },
             |ch, obs| part.push((ch.vector(), ch.deviations(), obs)),
         );
+        let mut stats = stats;
+        // An execution that ends in a hang or a panic of the store ends early; when the hang only
+        // strikes on some runs of the same prefix (it depends on how far a cancelled call got),
+        // shorter runs cannot follow the prefix recorded from a longer one.  Those divergences are
+        // consequences of the reported violation, not uncaptured nondeterminism of the harness.
+        let early_end = part.iter().any(|(_, _, o)| o.problem.as_ref().is_some_and(|(k, _)| k.starts_with("hang/") || k.contains("panic")));
+        if early_end && !stats.divergences.is_empty() {
+            rep.set("divergences_explained_by_reported_hang_or_panic", json!(stats.divergences.len()));
+            stats.divergences.clear();
+        }
         rep.absorb_dfs(&format!("writers/k{k}-w{max_writes}/{max_conn}-connections"), &stats, max_dev);
         results.extend(part);
     }
